@@ -275,7 +275,7 @@ static int m_lock(void)
         emit("L %ld %d %d %d\n", stepno, lockn, f, locked);
         if (!f)
                 locked++;
-        return f ? 7 : 0;
+        return f ? ((lockn & 1) ? 7 : -4) : 0;
 }
 
 static int m_unlock(void)
@@ -289,7 +289,7 @@ static int m_unlock(void)
                 saw_unlock++;
                 snapshot_take(snap_unlock);
         }
-        return f ? -3 : 0;
+        return f ? ((unlockn & 1) ? -3 : 9) : 0;
 }
 
 static struct cat_mutex_interface mtx = { m_lock, m_unlock };
@@ -901,6 +901,12 @@ void w_run(long budget, long stall_n)
                 if (s != last) {
                         emit("S %ld %d\n", stepno, s);
                         last = s;
+                }
+                if (s == CAT_STATUS_ERROR_MUTEX_LOCK) {
+                        /* the call did nothing: it does not count as a step, so a faulty run keeps the schedule of the
+                         * fault-free one (C16 differential); fail sets are finite */
+                        stepno--;
+                        continue;
                 }
                 monitors_after_step();
                 if (flags & WF_SAMPLE) {
